@@ -37,7 +37,7 @@ LARGE = [24, 36, 48, 60, 72]
 
 def gen_cases(tier, seed):
     rnd = random.Random(f"C08-{seed}")
-    n = 30 if tier == "quick" else 320
+    n = 30 if tier == "quick" else 240
     cases = []
     for i in range(n):
         cls = ["small", "large3", "large", "spatial", "small", "large", "spatial_large", "small", "spatial"][i % 9]
